@@ -109,7 +109,15 @@ def run_path(case):
     src, path = case
     from vyxal.LazyList import LazyList
 
-    L = LazyList(iter(list(src)))
+    # the raw source is an iterator, a generator, or (as in every deep_copy) an itertools.tee object
+    from vyxal.helpers import deep_copy
+    kind = (len(path) + sum(src)) % 3
+    if kind == 0:
+        L = LazyList(iter(list(src)))
+    elif kind == 1:
+        L = LazyList(x for x in list(src))
+    else:
+        L = deep_copy(list(src))
     ops = []
     aux = {}
     for o in path:
